@@ -211,7 +211,7 @@ def cover_paths(run, E, contract, paths):
         if p.abstract or p.havoc:
             run.covers["abstract"] = run.covers.get("abstract", 0) + 1
             continue            # ghost inputs: cannot be replayed natively (feasibility was checked during exploration)
-        r = solve.check_inproc(list(p.pc) + list(E.axioms), 800)
+        r = solve.check_decomposed(list(p.pc) + list(E.axioms), 800)
         if r.status != "sat":
             continue
         run.covers["sat"] += 1
